@@ -38,7 +38,8 @@ check", refactoring slip, off-by-one, wrong tie-break, forgotten case, two sites
    smoke test would expose at once. Prefer changes whose effect is a silently wrong result over ones that crash.
    {avoid}
 4. you provide a **demonstration**: a test file or small program + the exact command to run it, which FAILS with your change
-   applied and PASSES on the unchanged sources (`git stash` / `git stash pop` to check both directions — do check both).
+   applied and PASSES on the unchanged sources (check both directions with `git diff > /tmp/<tag>.p; git apply -R /tmp/<tag>.p; …; git apply /tmp/<tag>.p`
+   — do NOT use `git stash`: the stash is shared by all scratch worktrees of this repository and other jobs run next to yours).
    A new Rust integration test under `crates/lib/mimium-test/tests/` or `crates/lib/mimium-lang/tests/` (plus any `.mmm`
    fixture it needs) is the usual form; look at the existing tests there for how programs are compiled and run on the VM
    and on WASM (`mimium_test::run_source_test`, `run_file_test_mono`, `run_source_with_scheduler_wasm`, …).
